@@ -738,6 +738,71 @@ def r01_9(ctx, rep):
 
 
 @SPEC.rule(
+    "R01.14",
+    "a table is kept only when its whole layout is the expected one: in _check_database_structure the column list fetched with PRAGMA "
+    "table_info is compared with the expected list as a whole (`==` / `!=` on the two lists — length included), and the verdict is set to "
+    "`correct` only where that comparison is known to have come out equal; a column-by-column walk over zip() of the two stops at the shorter "
+    "list and accepts a table that lacks a column",
+)
+def r01_14(ctx, rep):
+    from ..cfg import CFG, assume_truth, must_facts
+    R = "R01.14"
+    fn = ctx.func(PARSER, "_check_database_structure", R)
+    site = PARSER + ":_check_database_structure"
+    cfg = CFG(fn, R)
+    # (fetched-columns variable, expected-layout variable) per table_info query: the fetchall() after the PRAGMA, and the list-of-tuples literal
+    fetched, expected = [], []
+    for st in walk_local(fn):
+        if isinstance(st, ast.Assign) and isinstance(st.targets[0], ast.Name):
+            if isinstance(st.value, ast.Call) and method_name(st.value) == "fetchall":
+                fetched.append(st.targets[0].id)
+            if isinstance(st.value, ast.List) and st.value.elts and all(isinstance(x, ast.Tuple) for x in st.value.elts):
+                expected.append(st.targets[0].id)
+    fetched, expected = sorted(set(fetched)), sorted(set(expected))
+    if not fetched or not expected:
+        raise MechanismMissing(R, "fetched column list / expected layout literal not found in _check_database_structure")
+    tests = [x for x in cfg.nodes if x.kind in ("test", "stmt") and x.ast is not None and not isinstance(x.ast, (ast.If, ast.For, ast.While, ast.With, ast.Try, ast.FunctionDef)) and any(
+        isinstance(c, ast.Compare) and len(c.ops) == 1 and isinstance(c.ops[0], (ast.Eq, ast.NotEq)) and {norm(c.left), norm(c.comparators[0])} <= set(fetched) | set(expected)
+        and norm(c.left) != norm(c.comparators[0]) and (norm(c.left) in fetched) != (norm(c.comparators[0]) in fetched) for c in ast.walk(x.ast))]
+    rep.ob(R, site, "the fetched layout is compared with the expected one as a whole", len(tests) >= 1,
+           "no test compares the list fetched by PRAGMA table_info (%s) with the expected layout (%s) as whole lists" % (fetched, expected))
+    pairs = [(f, e) for f in fetched for e in expected]
+
+    def transfer(node, facts):
+        if node.kind == "assume":
+            for f, e in pairs:
+                for q in ("%s == %s" % (f, e), "%s == %s" % (e, f)):
+                    t = assume_truth(node, q)
+                    if t is True:
+                        facts = facts | {"equal"}
+                    elif t is False:
+                        facts = facts - {"equal"}
+        if node.kind == "stmt" and isinstance(node.ast, ast.Assign) and any(isinstance(t, ast.Name) and t.id in fetched for t in node.ast.targets):
+            facts = facts - {"equal"}
+        return facts
+
+    IN = must_facts(cfg, transfer)
+    n = 0
+    # the verdict variables: what the tests in front of the CREATE TABLE statements read
+    dom = cfg.dominators()
+    creates = [x for x in cfg.stmts() if any(method_name(c) == "execute" and c.args and (const_str(c.args[0]) or "").strip().upper().startswith("CREATE TABLE")
+                                            for c in calls(x.ast))]
+    verdicts = {nm.id for c_ in creates for g in cfg.nodes if g.kind == "assume" and g.id in dom[c_.id] for nm in ast.walk(g.ast) if isinstance(nm, ast.Name)}
+    for x in cfg.stmts():
+        if isinstance(x.ast, ast.Assign) and isinstance(x.ast.targets[0], ast.Name) and x.ast.targets[0].id in verdicts and x in tests:
+            n += 1  # the verdict IS the whole-list comparison
+            continue
+        if isinstance(x.ast, ast.Assign) and isinstance(x.ast.targets[0], ast.Name) and isinstance(x.ast.value, ast.Constant) and x.ast.value.value is True \
+                and x.ast.targets[0].id in verdicts:
+            n += 1
+            rep.ob(R, site, "`%s` only where the layouts are equal" % norm(x.ast), "equal" in (IN.get(x.id) or frozenset()),
+                   "the table is declared correct on a path on which the whole-list comparison of the fetched and the expected layout is not known "
+                   "to be equal: a table with a missing (or an extra) column is kept, and the statements that use the column fail later")
+    if n < 1:
+        raise MechanismMissing(R, "no assignment of a positive verdict (a variable the CREATE TABLE guards read) found in _check_database_structure")
+
+
+@SPEC.rule(
     "R01.10",
     "each table's verdict is its own: in _check_database_structure the test that decides whether table T is (re)created reads "
     "only variables whose reaching definitions all lie after T's own existence query (SELECT ... FROM sqlite_master ... name='T') — "
